@@ -10,7 +10,7 @@ Fixpoint map2 {A B C} (f : A -> B -> C) (a : list A) (b : list B) : list C :=
   | _, _ => []
   end.
 
-(* per selected descriptor / packet field pair: the rule field length is 0 (variable) or the field's length *)
+(* per selected descriptor / packet field pair: the rule field length is 0 (size sent with the residue) or the field's length *)
 Definition len_ok (rf : rfd) (pf : field) : bool :=
   match r_cda rf with
   | ValueSent | LSB => (r_len rf =? 0) || (r_len rf =? zlen (f_val pf))
@@ -213,7 +213,7 @@ Proof.
   destruct (rule_ok_fields ct d pd r Hd Hok HA) as (_ & _ & _ & _ & F4 & _).
   eexists. split; [exact C|].
   rewrite (decompress_layout ct r (Some d) _ rs (pd_payload pd) F3 F5 F2 HSo).
-  cbv zeta. rewrite HRun. cbn [bind]. f_equal.
+  cbv zeta. unfold bits in *. rewrite HRun. cbn [bind]. f_equal.
   apply concat_fields. rewrite !map_length. symmetry. exact F4.
 Qed.
 
@@ -237,7 +237,7 @@ Proof.
       destruct (residue_of pf rf) as [[res|]|e|]; cbn [bind] in H; try discriminate.
       * destruct (if announces_length rf then encode_length (zlen res) else Ok []) as [pre|e|];
           cbn [bind] in H; try discriminate.
-        apply IH in H as [c ->]. exists ((pre ++ res) ++ c). now rewrite app_assoc.
+        apply IH in H as [c ->]. exists ((pre ++ res) ++ c). now rewrite <- !app_assoc.
       * now apply IH in H.
 Qed.
 
@@ -310,10 +310,23 @@ Proof.
   - apply (c01_roundtrip_nocompute ct d (mkpdesc d fs pl) r eq_refl Hok A HNC).
 Qed.
 
-Print Assumptions c01_compress_ok.
-Print Assumptions c01_roundtrip_nocompute.
-Print Assumptions c01_roundtrip.
-Print Assumptions c01_roundtrip_nocompression.
-Print Assumptions c01_manager.
-Print Assumptions c01_manager_nocompute.
-Print Assumptions value_sent_mapping_counterexample.
+(* the general form: every applying rule is a no-compression rule or a lossless rule whose compute
+   stage regenerates the computed fields (C09) *)
+Theorem c01_manager_rules ct parse rules packet d st fs pl :
+  parse packet = Ok (fs, pl) -> concat (map f_val fs) ++ pl = packet ->
+  prefix_free rules -> forallb rule_typed rules = true ->
+  (forall r, In r rules -> spec_rule_applies (mkpdesc d fs pl) r = true ->
+     (rule_nature r = NoCompression /\ rule_fds r = []) \/
+     (rule_ok_dec ct d (mkpdesc d fs pl) r /\
+      let rfs := select_fds (Some d) (rule_fds r) in
+      ce_sorted (centries_of ct 0 rfs) = true /\
+      run_computes (centries_of ct 0 rfs) (combine (map r_id rfs) (map2 pre_value rfs fs) ++ [(payload_fid, pl)])
+        = Ok (combine (map r_id rfs) (map f_val fs) ++ [(payload_fid, pl)]))) ->
+  forall s, cm_compress parse rules packet d st = Ok s -> cm_decompress ct rules s (Some d) = Ok packet.
+Proof.
+  intros HP HT PF T All. apply (c01_manager_gen ct parse rules packet d st fs pl HP PF T).
+  intros r I A. rewrite <- HT. destruct (All r I A) as [[HN HF]|[Hok [HSo HRun]]].
+  - apply (c01_roundtrip_nocompression ct d (mkpdesc d fs pl) r HN HF).
+  - apply (c01_roundtrip ct d (mkpdesc d fs pl) r eq_refl Hok A HSo HRun).
+Qed.
+
